@@ -1098,4 +1098,162 @@ func runC02B(c *core.Ctx, n int) {
 		}
 		c.Bucket("add-address-ok/" + origin)
 	})
+
+	// values built by the constructors are values of their own: after the caller has edited ONE of
+	// them through its public surface (exported fields, what accessors hand out), every other value
+	// - built before or after the edit, from other or from the same arguments - serialises to what
+	// the independent decoder expects (constructors that point all values at one shared object)
+	type built struct {
+		val any
+		ser func() ([]byte, error)
+	}
+	c.Job("B/independence", n/2, func(i int, r *core.Rand) {
+		kinds := []string{"raddr", "rinfo", "lease", "lease2", "dest", "rident", "kac", "leaseset2", "encleaseset", "cert", "keycert", "mapping"}
+		kind := kinds[i%len(kinds)]
+		k7, _ := rm.NewSigKey(7, r)
+		priv7, _ := lib.LibSigningPrivateKey(k7)
+		mk := func(rr *core.Rand) (built, bool) {
+			switch kind {
+			case "raddr":
+				m := gen.RouterAddress(rr)
+				if len(m.Style) == 0 {
+					m.Style = []byte("NTCP2")
+				}
+				v, err := lib.BuildRouterAddress(m)
+				if err != nil || v == nil {
+					return built{}, false
+				}
+				return built{v, func() ([]byte, error) { return v.Bytes(), nil }}, true
+			case "rinfo":
+				m, sh := gen.RouterInfo(rr)
+				if sh["sig"].(int) != 7 {
+					return built{}, false
+				}
+				m.Published &= 1<<62 - 1
+				for j := range m.Addrs {
+					if len(m.Addrs[j].Style) == 0 {
+						m.Addrs[j].Style = []byte("SSU2")
+					}
+				}
+				v, ok, err := lib.BuildRouterInfo(m, priv7, 0)
+				if !ok || err != nil || v == nil {
+					return built{}, false
+				}
+				return built{v, func() ([]byte, error) { return v.Bytes() }}, true
+			case "lease":
+				m := gen.Lease(rr)
+				m.EndMs &= 1<<62 - 1
+				v, err := lib.BuildLease(m)
+				if err != nil || v == nil {
+					return built{}, false
+				}
+				return built{v, func() ([]byte, error) { return v.Bytes(), nil }}, true
+			case "lease2":
+				v, err := lib.BuildLease2(gen.Lease2(rr))
+				if err != nil || v == nil {
+					return built{}, false
+				}
+				return built{v, func() ([]byte, error) { return v.Bytes(), nil }}, true
+			case "dest":
+				m, _ := gen.KAC(rr, rm.DestSigTypes, rm.IdentCryptoTypes)
+				v, ok, err := lib.BuildDestination(m)
+				if !ok || err != nil || v == nil {
+					return built{}, false
+				}
+				return built{v, func() ([]byte, error) { return v.Bytes() }}, true
+			case "rident":
+				m, _ := gen.KAC(rr, rm.RouterSigTypes, rm.IdentCryptoTypes)
+				v, ok, err := lib.BuildRouterIdentity(m, rr.Pick(2))
+				if !ok || err != nil || v == nil {
+					return built{}, false
+				}
+				return built{v, func() ([]byte, error) { return v.Bytes() }}, true
+			case "kac":
+				m, _ := gen.KAC(rr, rm.KACSigTypes, rm.KACCryptoTypes)
+				v, ok, err := lib.BuildKAC(m)
+				if !ok || err != nil || v == nil {
+					return built{}, false
+				}
+				return built{v, func() ([]byte, error) { return v.Bytes() }}, true
+			case "leaseset2":
+				m, _ := gen.LeaseSet2(rr)
+				m.Flags, m.Offline = m.Flags&6, nil
+				if len(m.Leases) == 0 {
+					m.Leases = []rm.Lease2{gen.Lease2(rr)}
+				}
+				m.Keys = []rm.EncKey{{Type: 4, Data: rr.Bytes(32)}}
+				v, ok, err := lib.BuildLeaseSet2(m, nil)
+				if !ok || err != nil || v == nil {
+					return built{}, false
+				}
+				return built{v, func() ([]byte, error) { return v.Bytes() }}, true
+			case "encleaseset":
+				m, _ := gen.EncryptedLeaseSet(rr)
+				m.SigType, m.BlindedKey, m.Offline, m.Flags = 7, k7.Pub, nil, m.Flags&2
+				v, err := lib.BuildEncryptedLeaseSet(m, k7.Ed25519Private())
+				if err != nil || v == nil {
+					return built{}, false
+				}
+				return built{v, func() ([]byte, error) { return v.Bytes() }}, true
+			case "cert":
+				v, err := lib.BuildCert(gen.Cert(rr))
+				if err != nil || v == nil {
+					return built{}, false
+				}
+				return built{v, func() ([]byte, error) { return v.Bytes(), nil }}, true
+			case "keycert":
+				m, _ := gen.KAC(rr, rm.KACSigTypes, rm.KACCryptoTypes)
+				v, ok, err := lib.BuildKeyCert(m.Cert)
+				if !ok || err != nil || v == nil {
+					return built{}, false
+				}
+				return built{v, func() ([]byte, error) { return v.Data() }}, true
+			default:
+				v, err := lib.BuildMappingValues(gen.Mapping(rr, 8))
+				if err != nil || v == nil {
+					return built{}, false
+				}
+				return built{v, func() ([]byte, error) { return v.Data(), nil }}, true
+			}
+		}
+		seedA := fmt.Sprint("indep-a", i)
+		a, ok := mk(core.NewRand(c.Seed, seedA))
+		if !ok {
+			return
+		}
+		a0, err := a.ser()
+		if err != nil {
+			return
+		}
+		a0 = append([]byte{}, a0...)
+		b, ok := mk(core.NewRand(c.Seed, "indep-b", i))
+		if !ok {
+			return
+		}
+		c.Eval(1)
+		edits := 0
+		func() {
+			defer func() { _ = recover() }()
+			edits = lib.ScribbleExported(b.val) + lib.ScribbleViaAccessors(b.val)
+		}()
+		if edits == 0 {
+			c.Bucket("B/independence/no-writable-surface/" + kind)
+			return
+		}
+		c.Nontrivial([]byte("independence"), []byte(kind), a0)
+		sh := gen.Shape{"kind": kind, "edits_to_the_other_value": edits}
+		if a1, err := a.ser(); err != nil || !bytes.Equal(a1, a0) {
+			c.Violate("constructed/"+kind, "serialisation-changed-when-another-value-was-edited", sh, a0, fmt.Sprintf("a value built earlier serialises differently (%v) after another constructed value was edited through its public surface: %s", err, describeDiff(a0, a1)))
+			return
+		}
+		// built afterwards from the same arguments as the first value. Signatures over the same bytes
+		// may differ where the scheme is randomised; everything this job builds signs with Ed25519.
+		if a2, ok := mk(core.NewRand(c.Seed, seedA)); ok {
+			if s2, err := a2.ser(); err != nil || !bytes.Equal(s2, a0) {
+				c.Violate("constructed/"+kind, "construction-differs-after-another-value-was-edited", sh, a0, fmt.Sprintf("the same arguments give another serialisation (%v) once a constructed value of this kind has been edited by its holder: %s", err, describeDiff(a0, s2)))
+				return
+			}
+		}
+		c.Bucket("B/independence/ok/" + kind)
+	})
 }
